@@ -4,6 +4,7 @@
 -/
 import PygModel.Sort
 import PygProofs.Lemmas.CmpLemmas
+import PygProofs.Lemmas.NativeLemmas
 
 namespace Pyg.Props.C07
 open Pyg
@@ -81,6 +82,30 @@ theorem sort_idem (xs : List Val) : sort (sort xs) = sort xs :=
 /-- a list that is already non-decreasing is returned unchanged -/
 theorem sort_of_sorted (xs : List Val) (h : xs.Pairwise (fun a b => cmpLe a b = true)) :
     sort xs = xs := List.mergeSort_of_pairwise h
+
+/-! ### native order vs cmp (`sort` tries `sorted(values)` first) -/
+
+/-- wherever python's own `<`/`>` is defined between two bool-free scalars (same kind, or int against float, NaN excluded:
+`Cell.native` is `none` where python raises TypeError) it gives exactly the outcome of `cmp`.  Hence a native `sorted()`
+that does not raise and the `Cmp`-keyed fallback order such values alike. -/
+theorem native_agrees (a b : Cell) (ha : a.isBool = false) (hb : b.isBool = false) (o : Ordering)
+    (h : a.native b = some o) : cmp (.cell a) (.cell b) = o := Cell.native_agrees a b ha hb o h
+
+/-- the same for equal-length tuples of bool-free scalars (python compares tuples by their first `!=` pair; `cmp` compares
+type, length, then `cmparr`): this covers the `(key..., row number)` tuples that `dictable.sort` / `_listby` sort natively -/
+theorem native_agrees_tuple (xs ys : List Cell) (hlen : xs.length = ys.length)
+    (hx : ∀ c ∈ xs, c.isBool = false) (hy : ∀ c ∈ ys, c.isBool = false) (o : Ordering)
+    (h : nativeArr xs ys = some o) :
+    cmp (.tuple (xs.map .cell)) (.tuple (ys.map .cell)) = o := by
+  simp only [cmp, Val.norm, normList_map_cell, cmpN, List.length_map, hlen]
+  have : compare ys.length ys.length = .eq := by simp
+  rw [this]
+  exact cmpArr_cells_native xs ys hlen hx hy o h
+
+/-- bools are where the two orders part (`True` is `1` natively, `cmp` ranks bools below all numbers): the reason why
+bools take part in the cmp laws only -/
+theorem native_differs_on_bool :
+    (Cell.bool true).native (.flt 2) = some .gt ∧ cmp (.cell (.bool true)) (.cell (.flt 2)) = .lt := by decide
 
 /-! ### dictable.sort: decorate with the row index, sort, undecorate -/
 
@@ -203,26 +228,116 @@ theorem sortIdx_idem (keys : List Val) (h : keys.Pairwise (fun a b => cmpLe a b 
     simp only [List.getElem_zipIdx, List.zipIdxLE, this, if_true]
     split <;> simp <;> omega
 
+/-- idempotence as the property states it: sorting the sorted table again moves no row.
+(`(sortIdx keys).map (keys[·])` is the key column of the sorted table.) -/
+theorem sortIdx_twice (keys : List Val) :
+    sortIdx ((sortIdx keys).map fun i => keys[i]?.getD default) = List.range keys.length := by
+  have h := sortIdx_gather keys
+  have h2 : ((sortIdx keys).map fun i => keys[i]?.getD default) = sort keys := by
+    have := congrArg (List.map (fun o : Option Val => o.getD default)) h
+    simpa [List.map_map, Function.comp_def] using this
+  rw [h2, sortIdx_idem (sort keys) (sort_sorted keys), (sort_perm keys).length_eq]
+
 /-! ### explicit value orders (`dictable.sort(col = [v0, v1, ...])`) -/
 
-/-- a listed value gets its position in the list as sort rank (the list has no `==`-repeats) -/
+theorem lastIdxFrom_none (vals : List Cell) (x : Cell) (k : Nat) (h : ∀ v ∈ vals, v.pyEq x = false) :
+    lastIdxFrom k vals x = Option.none := by
+  induction vals generalizing k with
+  | nil => rfl
+  | cons v vs ih =>
+    simp only [lastIdxFrom, ih (k + 1) (fun w hw => h w (List.mem_cons_of_mem _ hw)), h v (List.mem_cons_self ..)]
+    simp
+
+theorem lastIdxFrom_ge (vals : List Cell) (x : Cell) (k j : Nat) (h : lastIdxFrom k vals x = some j) :
+    k ≤ j ∧ j < k + vals.length := by
+  induction vals generalizing k with
+  | nil => simp [lastIdxFrom] at h
+  | cons v vs ih =>
+    simp only [lastIdxFrom] at h
+    cases h' : lastIdxFrom (k + 1) vs x with
+    | some j' =>
+      rw [h'] at h; simp at h; subst h
+      have := ih (k + 1) h'; simp; omega
+    | none =>
+      rw [h'] at h
+      by_cases hv : v.pyEq x = true
+      · simp [hv] at h; subst h; simp
+      · simp [hv] at h
+
+/-- a listed value gets the position of its LAST occurrence as sort rank (for an order without repeats: its position) -/
 theorem byvalRank_listed (vals : List Cell) (i : Nat) (hi : i < vals.length)
     (hrefl : vals[i].pyEq vals[i] = true)
-    (hnd : ∀ j, (hj : j < i) → (vals[j]'(Nat.lt_trans hj hi)).pyEq vals[i] = false) :
+    (hlast : ∀ j, i < j → (hj : j < vals.length) → vals[j].pyEq vals[i] = false) :
     byvalRank vals vals[i] = i := by
-  unfold byvalRank
-  have : vals.findIdx? (fun v => v.pyEq vals[i]) = some i := by
-    rw [List.findIdx?_eq_some_iff_getElem]
-    exact ⟨hi, hrefl, fun j hj => by simp [hnd j hj]⟩
-  rw [this]
+  suffices h : ∀ (vs : List Cell) (k i : Nat) (hi : i < vs.length) (x : Cell), vs[i].pyEq x = true →
+      (∀ j, i < j → (hj : j < vs.length) → vs[j].pyEq x = false) → lastIdxFrom k vs x = some (k + i) by
+    unfold byvalRank lastIdx?
+    rw [h vals 0 i hi vals[i] hrefl hlast]; simp
+  intro vs
+  induction vs with
+  | nil => intro k i hi; simp at hi
+  | cons v vs ih =>
+    intro k i hi x hx hl
+    cases i with
+    | zero =>
+      have hn : lastIdxFrom (k + 1) vs x = Option.none := by
+        apply lastIdxFrom_none
+        intro w hw
+        obtain ⟨n, hn, rfl⟩ := List.getElem_of_mem hw
+        have := hl (n + 1) (by omega) (by simp; omega)
+        simpa using this
+      simp only [lastIdxFrom, hn]
+      simp at hx; simp [hx]
+    | succ i =>
+      have hi' : i < vs.length := by simpa using hi
+      have := ih (k + 1) i hi' x (by simpa using hx) (fun j hj hjl => by
+        have := hl (j + 1) (by omega) (by simp; omega); simpa using this)
+      simp only [lastIdxFrom, this]
+      congr 1; omega
 
-/-- an unlisted value ranks after every listed one -/
+/-- an unlisted value gets the number of DISTINCT listed values as rank -/
 theorem byvalRank_unlisted (vals : List Cell) (x : Cell) (h : ∀ v ∈ vals, v.pyEq x = false) :
-    byvalRank vals x = vals.length := by
-  unfold byvalRank
-  have : vals.findIdx? (fun v => v.pyEq x) = Option.none := by
-    rw [List.findIdx?_eq_none_iff]; intro v hv; simp [h v hv]
-  rw [this]
+    byvalRank vals x = (dedupPy vals).length := by
+  unfold byvalRank lastIdx?
+  rw [lastIdxFrom_none vals x 0 h]
+
+theorem dedupPy_of_distinct (vals : List Cell) (h : vals.Pairwise (fun a b => a.pyEq b = false)) :
+    dedupPy vals = vals := by
+  induction vals with
+  | nil => rfl
+  | cons v vs ih =>
+    rw [List.pairwise_cons] at h
+    simp only [dedupPy, ih h.2]
+    congr 1
+    rw [List.filter_eq_self]
+    intro w hw; simp [h.1 w hw]
+
+/-- "unlisted ones last": for a value order without repeats every listed value ranks strictly below every unlisted one -/
+theorem byval_unlisted_last (vals : List Cell) (hd : vals.Pairwise (fun a b => a.pyEq b = false))
+    (x y : Cell) (hx : ∃ v ∈ vals, v.pyEq x = true) (hy : ∀ v ∈ vals, v.pyEq y = false) :
+    byvalRank vals x < byvalRank vals y := by
+  rw [byvalRank_unlisted vals y hy, dedupPy_of_distinct vals hd]
+  unfold byvalRank lastIdx?
+  cases h : lastIdxFrom 0 vals x with
+  | some j => have := lastIdxFrom_ge vals x 0 j h; simp; omega
+  | none =>
+    obtain ⟨v, hv, hvx⟩ := hx
+    exfalso
+    clear hy hd
+    suffices hh : ∀ (vs : List Cell) (k : Nat), v ∈ vs → lastIdxFrom k vs x ≠ Option.none from hh vals 0 hv h
+    intro vs
+    induction vs with
+    | nil => intro k hv; simp at hv
+    | cons w ws ih =>
+      intro k hv hnone
+      simp only [lastIdxFrom] at hnone
+      cases hw : lastIdxFrom (k + 1) ws x with
+      | some j => rw [hw] at hnone; simp at hnone
+      | none =>
+        rw [hw] at hnone
+        rcases List.mem_cons.1 hv with rfl | hv'
+        · simp [hvx] at hnone
+        · exact ih (k + 1) hv' hw
 
 /-- on single-column rank keys `cmp` is the order of the ranks, so rows sort by rank: listed
 values in the given order, unlisted last, ties in original order (by `sortIdx_ordered`) -/
@@ -237,6 +352,26 @@ theorem cmp_rankKey (a b : Nat) :
   simp only [cmp, Val.norm, normList, cmpN, cmpArr, Cell.cmp, Cell.cmpSame, Cell.rank, Cell.num,
     Cell.skey, this]
   cases compare a b <;> rfl
+
+/-- explicit value orders, composed: in the result of `d.sort(col = vals)` the ranks of the rows are non-decreasing, and rows of
+equal rank keep their original order; together with `byvalRank_listed` / `byval_unlisted_last` this is "listed values in
+the given order, unlisted ones last, ties in original order". -/
+theorem byval_sorted (vals : List Cell) (col : List Cell) :
+    (sortIdx (col.map fun x => byvalKey [vals] [x])).Pairwise (fun a b =>
+      ∃ xa xb, col[a]? = some xa ∧ col[b]? = some xb ∧
+        (byvalRank vals xa < byvalRank vals xb ∨ (byvalRank vals xa = byvalRank vals xb ∧ a < b))) := by
+  refine (sortIdx_ordered (col.map fun x => byvalKey [vals] [x])).imp ?_
+  rintro a b ⟨ka, kb, ha, hb, h⟩
+  simp only [List.getElem?_map, Option.map_eq_some_iff] at ha hb
+  obtain ⟨xa, hxa, rfl⟩ := ha
+  obtain ⟨xb, hxb, rfl⟩ := hb
+  refine ⟨xa, xb, hxa, hxb, ?_⟩
+  have hk : ∀ x, byvalKey [vals] [x] = .list [.cell (.int (byvalRank vals x))] := by
+    intro x; simp [byvalKey]
+  rw [hk, hk, cmp_rankKey] at h
+  rcases h with h | ⟨h, hlt⟩
+  · left; exact Nat.compare_eq_lt.1 h
+  · right; exact ⟨Nat.compare_eq_eq.1 h, hlt⟩
 
 /-! ### non-vacuity: concrete mixed-type values -/
 
